@@ -88,7 +88,7 @@ def _run(pid, tier, seed, replay, cfg, props, sc, work, t0):
             notes.append('translator %s failed on the current source: %s'
                          % (tr, p.stdout[-800:]))
     # 3. proof obligations
-    ok, out, failing = vlib.lake_build(list(props) + ['pysph_model'])
+    ok, out, failing = vlib.lake_build(list(props) + [vlib.driver_target(pid)])
     thm_index = {}
     all_thms = []
     for m in props:
@@ -184,7 +184,7 @@ def _run(pid, tier, seed, replay, cfg, props, sc, work, t0):
     cov = {
         'obligations': len(all_thms) + len(getattr(cfg, 'EXTRA_OBLIGATIONS', [])),
         'discharged': len(discharged) + (len(getattr(cfg, 'EXTRA_OBLIGATIONS', [])) if ok else 0),
-        'checker_cmd': 'cd lean && lake build %s pysph_model && lake env lean <#print axioms of every theorem>' % ' '.join(props),
+        'checker_cmd': 'cd lean && lake build %s %s && lake env lean <#print axioms of every theorem>' % (' '.join(props), vlib.driver_target(pid)),
         'trusted_base': cfg.TRUSTED_BASE,
         'theorems': all_thms,
         'axioms_used': sorted({a for v in axioms.values() for a in v}),
